@@ -56,7 +56,7 @@ PROPS = {
         "level_note": "Trusted: the apint 0.2.0 contracts in shim/apint*.rs (external_body; the thorough tier cross-checks them against the real crate with Kani and a twin sweep), derive-generated code restated in shim/bytesize.rs and unit glue, rule R5 (failed assert diverges), 64-bit usize, widths <= 2^28 bits. Floating point is only proved to answer 'unknown'. Bool* operations are specified as bitwise on their operands. signed_mult_with_overflow_flag needs width >= 2 bits.",
         "design_ref": "DESIGN.md section 3 (C01)",
         "default_twins": ["c01.bin_op", "c01.domain_bin_op", "c01.un_op", "c01.cast", "c01.subpiece", "c01.add_ovf", "c01.sub_ovf", "c01.mul_flag"],
-        "sweep_twins": ["c01.bin_op", "c01.domain_bin_op", "c01.un_op", "c01.cast", "c01.subpiece", "c01.add_ovf", "c01.sub_ovf", "c01.mul_flag"],
+        "sweep_twins": ["c01.apint_err", "c01.bin_op", "c01.domain_bin_op", "c01.un_op", "c01.cast", "c01.subpiece", "c01.add_ovf", "c01.sub_ovf", "c01.mul_flag"],
         "kani": ["c01"],
         "not_covered": [],
         "assumptions": [
